@@ -2,7 +2,7 @@
 # run every checker self-test (selftest/<ID>/*.sed, seeded/<ID>/patch.diff) and print PASS/FAIL lines
 cd /verif
 for d in selftest/* seeded/*; do
-  id=$(basename $d)
+  id=$(basename $d | cut -c1-3)
   for f in $d/*.sed $d/patch.diff; do
     [ -f "$f" ] || continue
     case $(basename $f) in benign*) e=silent;; *) e=fire;; esac
